@@ -29,7 +29,9 @@
 // relative (like the loader with the empty module name) while `find` still filters qualified names by that module name.
 // The three kinds of loader the constructor distinguishes are therefore all built: module name "" (g), `environment`
 // ((m x656e7669726f6e6d656e74), (f …), member of d / e) and an ordinary module name.
-//	lookups = ((load xNAME) | (has xNAME) | (discover) …)
+//	lookups = ((load xNAME) | (has xNAME) | (discover) | (def g xNAME) | (def (m xMOD) xNAME) …)
+//	          def = a definition made BETWEEN lookups through another loader's DefiningLoader, without any file:
+//	          px.AddTypes(c, px.NewNamedType(NAME, "Variant[String,Integer]")) under c.DoWithLoader(<that file loader>)
 //
 // The loaders are built the way internal/runtime.go and loader/filebased_test.go do it: a fresh system-like parented loader
 // over the static loader, `px.NewFileBasedLoader(sys, root/env, "", PuppetDataTypePath)` for the global loader, one
@@ -84,8 +86,9 @@ type file struct {
 }
 
 type lookup struct {
-	op   string // load has discover
+	op   string // load has discover def
 	name string
+	in   string // def: the loader whose DefiningLoader gets the definition ("g" or "m:<name>")
 }
 
 type spec struct {
@@ -180,6 +183,17 @@ func specOf(args []sx.Sexp) (s spec, err error) {
 			s.lookups = append(s.lookups, lookup{op: l.Tag(), name: l.List[1].MustStr()})
 		case l.Tag() == "discover" && len(l.List) == 1:
 			s.lookups = append(s.lookups, lookup{op: "discover"})
+		case l.Tag() == "def" && len(l.List) == 3:
+			in := ""
+			switch {
+			case !l.List[1].IsList && l.List[1].Atom == "g":
+				in = "g"
+			case l.List[1].Tag() == "m" && len(l.List[1].List) == 2:
+				in = "m:" + l.List[1].List[1].MustStr()
+			default:
+				panic("bad def loader")
+			}
+			s.lookups = append(s.lookups, lookup{op: "def", name: l.List[2].MustStr(), in: in})
 		default:
 			panic("bad lookup")
 		}
@@ -210,6 +224,12 @@ func (s spec) String() string {
 	for i, l := range s.lookups {
 		if l.op == "discover" {
 			ls[i] = sx.T("discover")
+		} else if l.op == "def" {
+			var in sx.Sexp = sx.A("g")
+			if strings.HasPrefix(l.in, "m:") {
+				in = sx.T("m", sx.Str(l.in[2:]))
+			}
+			ls[i] = sx.T("def", in, sx.Str(l.name))
 		} else {
 			ls[i] = sx.T(l.op, sx.Str(l.name))
 		}
@@ -322,6 +342,9 @@ func (s spec) wellFormed() bool {
 	}
 	for _, l := range s.lookups {
 		if l.op != "discover" && !nameOK(l.name) {
+			return false
+		}
+		if l.op == "def" && (!typeNameOK(l.name) || (strings.HasPrefix(l.in, "m:") && !seen[l.in[2:]])) {
 			return false
 		}
 	}
@@ -578,6 +601,16 @@ func (w *world) run(c px.Context, l lookup) (o outcome) {
 			}
 			k, n := typeKind(v)
 			o = outcome{kind: "found", tkind: k, name: n}
+		case "def":
+			// handled by the caller's loader switch below: the definition goes to ANOTHER loader's DefiningLoader
+			var dl px.Loader = w.global
+			if strings.HasPrefix(l.in, "m:") {
+				dl = w.mods[l.in[2:]]
+			}
+			c.DoWithLoader(dl, func() {
+				px.AddTypes(c, px.NewNamedType(l.name, "Variant[String,Integer]"))
+			})
+			o = outcome{kind: "defined"}
 		case "loadfunction", "loadtask", "loadplan":
 			// the same name in a namespace no smart path serves
 			_, ok := px.Load(c, px.NewTypedName(px.Namespace(l.op[4:]), l.name))
